@@ -173,6 +173,7 @@ func (c *Check) lockset(rule string, rel, typ, mutex string, guarded map[*types.
 		c.Bad(rule, obKey, a.bad[0].Instr.Pos(), "lockset", w, "%d of %d accesses to %s fields are not protected by %s", len(a.bad), a.total, typ, lockName(mu))
 	}
 	c.Min(rule, "guarded accesses of "+typ, n, min)
+	c.guardedEscapes(rule, mu, typ, guarded, scope)
 }
 
 func accessAddr(a Access) *ssa.FieldAddr {
